@@ -151,6 +151,11 @@ for directed in (False, True):
                             or (loops and ids == [0, 1] and not strnodes and v is None and (sn, en) == (True, True)) \
                             or (ids == [0, 2, 3] and strnodes and v is None and not sn and not en and not directed and not loops) \
                             or (directed and ids == [0, 1] and not strnodes and v in (None, 1) and (sn, en) in ((False, False), (True, True)) and not loops)
+                        keep = quick or (not directed and N == 3 and v in (None, 1) and (sn, en) in ((False, False), (True, True))) \
+                            or (not directed and N == 4 and not strnodes and (sn, en) == (True, True) and v is None and not loops) \
+                            or (directed and ids in ([0, 1], [0, 1, 2]) and N == 3 and not strnodes and v is None and (sn, en) == (True, True))
+                        if not keep:
+                            continue
                         REG.add("dag_%s_%s_ids%s_N%d_v%s_%s%s%s" % ("d" if directed else "u", "str" if strnodes else "int",
                                                                     "".join(map(str, ids)), N, "N" if v is None else v,
                                                                     "s" if not sn else "S", "e" if not en else "E", "_loops" if loops else ""),
@@ -181,7 +186,7 @@ def T_eager(pb: B48) -> bool:
 
 
 def eager_body(cfg, pb):
-    names, dec = eager(cfg["N"], cfg["ids"], cfg["directed"], pb, cfg["strnodes"])
+    names, dec = eager(cfg["N"], cfg["ids"], cfg["directed"], pb, cfg["strnodes"], cfg.get("prefix", ()))
     if sum(1 for x in dec.values() if x) >= 3:
         reach("three_interactions")
     return models.untraced(eager_run, cfg, names, dec)
@@ -213,3 +218,14 @@ for directed, ids in ((False, [0, 1, 2]), (True, [0, 1])):
                        "API), every root, every target (and none), every window with bounds in [first id - 1, last id + 1]" %
                        ("DynDiGraph" if directed else "DynGraph", "string" if strnodes else "int", ids),
                 what="the same assertions as dag_*, with temporal_dag running on the real class instead of the LazyG model")
+
+
+for _N, _ids, _pl in ((3, [0, 1, 2, 3], 1), (4, [0, 1], 1), (3, [1, 3, 4, 6], 1), (3, [0, 1, 2, 3, 4], 4)):
+    for _pi in range(2 ** _pl):
+        _prefix = [bool(_pi >> k & 1) for k in range(_pl)]
+        REG.add("eager_u_N%d_ids%s_p%d" % (_N, "".join(map(str, _ids)), _pi), T_eager, eager_body,
+                cfg=dict(directed=False, ids=_ids, N=_N, strnodes=False, prefix=_prefix), tier="thorough", timeout=6000,
+                tags=["three_interactions"], twins=1,
+                bounds="EVERY real DynGraph on %d int nodes over snapshot ids %s whose first %d presence bits are %s (partition %d of "
+                       "%d), built through the public API; every source/root, target, window" % (_N, _ids, _pl, _prefix, _pi, 2 ** _pl),
+                what="as eager_u_int on a larger universe")
